@@ -793,8 +793,8 @@ class WarmCaches(Suite):
             # ... and inside all six modules (request.py / response.py too), on a stride in the quick tier
             for k in range(0, n_all + 2, 5 if tier == 'quick' else 1):
                 yield {'warm': warm, 'plan': [[0, k]], 'files': 'all'}
-            for k1 in range(0, n_helpers, n_helpers // 5 if tier == 'quick' else 5):
-                for k2 in range(1, n_helpers, n_helpers // 5 if tier == 'quick' else 5):
+            for k1 in range(0, n_helpers, n_helpers // 5 if tier == 'quick' else 13):
+                for k2 in range(1, n_helpers, n_helpers // 5 if tier == 'quick' else 13):
                     yield {'warm': warm, 'plan': [[0, k1], [1, k2]]}
                     yield {'warm': warm, 'plan': [[0, k1], [1, k2], [2, k1 + 3]], 'threads': 3}
 
